@@ -48,7 +48,7 @@ def fill(claim, na):
     )
     claim(
         "C03", "other",
-        "writer/reader table agreement, stack typestate (frame locality, orientation), order-domain enumeration of the parser's limit transfer",
+        "string abstraction of the emitters (shapes of what to_string writes); bounded interpretation (checker's own AST interpreter, exhaustive over the finite token/character abstraction) of the tokenizer and of Parser.param/Parser.parameters on streams derived from those shapes; stack typestate; order-domain enumeration of the parser's limit transfer",
         "Partial claim. Decides: every punctuation character, keyword and number-format letter the emitters write has a "
         "consumer in the tokenizer/parser tables; field order agrees; popping loops of the shift/reduce parser are "
         "frame-local (only Parser.process drains) and hand forward-oriented lists to Series/Parallel; the parser's "
@@ -61,7 +61,7 @@ def fill(claim, na):
     )
     claim(
         "C05", "other",
-        "effect analysis of caller-owned arguments, optional-key contradiction rule, permutation model of the reversal, writer/reader key tables, who-may-write",
+        "bounded explicit-state exploration of the DataSet on its own AST (interpreted __init__, set_mask, filters, subtraction and getters against a reference model, 1..3 points, both input orders, all masks, all operation sequences up to the bound); effect analysis of caller-owned arguments, optional-key contradiction rule, writer/reader key tables, who-may-write",
         "Structural clauses: public DataSet API does not mutate caller-owned arguments (flow-sensitive freshness analysis, "
         "inter-procedural through _parse/_parse_v1/from_dict); a key read as optional is never subscripted/deleted "
         "unguarded; under reversal of ascending input frequencies, impedances and mask keys undergo the same single "
@@ -74,7 +74,7 @@ def fill(claim, na):
     )
     claim(
         "C01", "other",
-        "fold summaries by one symbolic iteration (term extraction), guard-classified path table, isinstance-chain ordering against the class hierarchy, dominance rules",
+        "exhaustive interpretation of Series._impedance/Parallel._impedance over the zero/infinite/tiny/generic pattern domain with kind-typed child stubs (a 1-D numpy stand-in); finite abstract interpretation of the index sets in _calculate_impedances; fold summaries of the symbolic combinators; dominance rules",
         "Decides the STRUCTURE of composition: numeric and symbolic Series/Parallel combinators are the folds Σ Z_k and "
         "1/Σ(1/Z_k) over every child with zero start and no conditional contribution; the open/short path table of "
         "Parallel._impedance (guards classified by semantic recognisers); subclass-before-superclass dispatch with the right "
@@ -101,7 +101,7 @@ def fill(claim, na):
     )
     claim(
         "C16", "other",
-        "use-site enumeration with a reviewed running-flag table; f-string shape agreement between identifier writers and the suffix reader; counter fold summary",
+        "use-site enumeration with a reviewed running-flag table; interpretation of generate_element_identifiers (Connection and Container) and of Element/Container.to_sympy over their finite input abstractions; identifier-forwarding rule; writer/reader agreement for fit identifiers; diagram-label provenance",
         "Every numbering of elements goes through generate_element_identifiers with an explicit running flag; the flag at "
         "each of the reviewed use sites is the one its role needs (symbolic variables, fit identifiers and the suffix "
         "reader: running; display names: per-type); writers (Element/Container.to_sympy, generate_fit_identifiers) and "
@@ -113,7 +113,7 @@ def fill(claim, na):
     )
     claim(
         "C20", "other",
-        "kind-dispatch exhaustiveness over the sum type {Series, Parallel, Element} at every traversal site; emit-once rule; framing and push/pop counting",
+        "abstract interpretation over the kind of the visited child {Series, Parallel, Element} at every traversal site (handled / rejected / skipped, emit-once); push/pop balance by interpretation with a counting stub; framing; naming rules shared with C16",
         "At the 11 child-traversal sites of the two diagram back ends, to_stack and to_sympy, the dispatch covers all three "
         "kinds, the fall-through raises or handles the rest, each element arm emits exactly once and recursion is on the "
         "visited child; to_latex is latex(to_sympy(False)); CircuiTikZ begin/end framing on every path; push/pop in "
@@ -255,8 +255,8 @@ def fill(claim, na):
     )
     claim(
         "C10", "other",
-        "def-use provenance over _suggest_using_default / suggest_num_RC / perform_kramers_kronig_test: the suggested test is drawn from the list filtered with the returned limits",
-        "Decides one clause only: the suggested number of RC elements lies inside the limits it is reported with. The default "
+        "def-use provenance over _suggest_using_default / suggest_num_RC / perform_kramers_kronig_test (suggestion drawn from the list filtered with the returned limits); index-space agreement in _suggest_representation (scores and result refer to the same sorted list)",
+        "Decides two structural clauses only: (1) the suggested number of RC elements lies inside the limits it is reported with; (2) the representation choice scores and returns candidates of one and the same list sorted by pseudo chi-squared. The default "
         "path binds (lower, upper) once from suggest_num_RC_limits, refuses an empty range, filters the tests with "
         "lower <= num_RC <= upper, draws every candidate for the suggestion from the filtered list and returns those same "
         "limits; suggest_num_RC routes the default settings there and returns the tuple unchanged; perform_kramers_kronig_test "
